@@ -6,6 +6,7 @@ import PdbVerif.Gen.Mat
 import PdbVerif.Model.Superpose
 import PdbVerif.Model.Transform
 import PdbVerif.Model.Align
+import PdbVerif.Driver.ExtAlign
 
 namespace Driver.ModelD
 open Lean Driver Driver.D Py
@@ -131,6 +132,6 @@ def op (name : String) (j : Json) : Except String (Option Json) := do
     let axis ← jStr j "axis"
     let db ← jAtoms j "db"
     pure (some (Json.mkObj [("table", exceptJ atomsJ (Model.alignPcaVect 1 0 1 0 axis db))]))
-  | _ => pure none
+  | _ => (do match ← ExtAlign.op name j with | some r => pure (some r) | none => pure none)
 
 end Driver.ModelD
